@@ -499,6 +499,22 @@ def NEST(tier='quick'):
         for v in _nest_values(T, 6 if tier == 'quick' else 12):
             yield T, v
 
+    # DEFAULT components of BIT STRING / OID / REAL / ENUMERATED type (the record menu has the other leaf types)
+    more_defaults = [
+        (BITS, '101', ['101', '', '0', '1010', '00000000', '10100000']),
+        (I(3, BITS), '', ['', '0', '1']),
+        (OID, (1, 2, 128), [(1, 2, 128), (1, 2), (2, 999, 3)]),
+        (REAL, (1, 2, -1), [(1, 2, -1), (2, 2, -2), (1, 2, 0), 'inf']),
+        (ENUM, 1, [0, 1, 300]),
+    ]
+    for ft, dflt, vals in more_defaults:
+        for kind in ('SEQ', 'SET'):
+            T = (kind, (('h', I(30, INT), 'R', None), ('f', ft, 'D', M.freeze(dflt)), ('g', I(31, M.strip_con(ft) if ft[0] != 'TAG' else ft[4]), 'O', None)))
+            assert M.legal(T), T
+            for fv in vals:
+                yield T, {'h': 1, 'f': fv}
+                yield T, {'h': 1, 'f': fv, 'g': vals[-1]}
+
     # DEFAULT component of CHOICE type whose alternatives can hold equal contents
     chdef = ('CHOICE', (('a', I(0, INT)), ('b', I(1, INT)), ('s', I(2, OCTS))))
     for kind in ('SEQ', 'SET'):
